@@ -122,3 +122,142 @@ theorem useValue_some {lb : Nat} {p p' : List Iv} {v : Nat} (h : Ok lb p)
 
 #print axioms useValue_some
 end Alloc
+
+namespace Alloc
+
+inductive DRes
+  | ok (p : List Iv)
+  | panic (site : String)
+deriving Repr, DecidableEq
+
+def DRes.map (f : List Iv → List Iv) : DRes → DRes
+  | .ok p => .ok (f p)
+  | .panic s => .panic s
+
+/-- the four match arms of `deallocate` once `left`/`right` are known (`right = some r`) -/
+def deallocLR (tmax v : Nat) (l : Option Iv) (r : Iv) (rest : List Iv) : DRes :=
+  match l with
+  | some l =>
+    if l.hi + 1 = v then
+      if v = tmax then .panic "deallocate: value + 1 (arm 1)"
+      else if v + 1 = r.lo then .ok (⟨l.lo, r.hi⟩ :: rest)
+      else .ok (⟨l.lo, v⟩ :: r :: rest)
+    else
+      if v = tmax then .panic "deallocate: value + 1 (arm 3)"
+      else if v + 1 = r.lo then .ok (l :: ⟨v, r.hi⟩ :: rest)
+      else if r.lo ≤ v then .ok (l :: r :: rest)
+      else .ok (l :: ⟨v, v⟩ :: r :: rest)
+  | none =>
+    if v = tmax then .panic "deallocate: value + 1 (arm 3)"
+    else if v + 1 = r.lo then .ok (⟨v, r.hi⟩ :: rest)
+    else if r.lo ≤ v then .ok (r :: rest)
+    else .ok (⟨v, v⟩ :: r :: rest)
+
+/-- deallocate: `left` = last interval with hi < v, `right` = first with hi ≥ v. -/
+def dealloc (tmax v : Nat) : List Iv → DRes
+  | [] => .ok [⟨v, v⟩]
+  | a :: rest =>
+    if a.hi < v then
+      match rest with
+      | [] => if a.hi + 1 = v then .ok [⟨a.lo, v⟩] else .ok [a, ⟨v, v⟩]
+      | b :: rest' =>
+        if b.hi < v then (dealloc tmax v (b :: rest')).map (a :: ·)
+        else deallocLR tmax v (some a) b rest'
+    else deallocLR tmax v none a rest
+
+example : dealloc 65535 3 [⟨1,2⟩, ⟨4,9⟩] = .ok [⟨1,9⟩] := by decide
+example : dealloc 65535 3 [⟨1,1⟩, ⟨5,9⟩] = .ok [⟨1,1⟩, ⟨3,3⟩, ⟨5,9⟩] := by decide
+example : dealloc 65535 65535 [⟨1,65535⟩] = .panic "deallocate: value + 1 (arm 3)" := by decide
+example : dealloc 65535 7 [⟨1,2⟩, ⟨4,5⟩] = .ok [⟨1,2⟩, ⟨4,5⟩, ⟨7,7⟩] := by decide
+
+/-- releasing a used value inside the range: the free set grows by exactly `v`, the
+    representation stays sorted/disjoint/maximally merged, no panic (any `tmax ≥ v`). -/
+theorem dealloc_used {tmax v lb : Nat} {p : List Iv} (h : Ok lb p) (hv : ¬ Free p v)
+    (hlb : lb ≤ v) (hmax : ∀ iv ∈ p, iv.hi ≤ tmax) (hvm : v ≤ tmax) :
+    ∃ p', dealloc tmax v p = .ok p' ∧ (∀ w, Free p' w ↔ (Free p w ∨ w = v)) ∧ Ok lb p' := by
+  induction p generalizing lb with
+  | nil =>
+    refine ⟨[⟨v, v⟩], rfl, ?_, ?_⟩
+    · intro w; simp; omega
+    · exact ⟨hlb, Nat.le_refl _, trivial⟩
+  | cons a rest ih =>
+    obtain ⟨h1, h2, h3⟩ := h
+    have hva : ¬ (a.lo ≤ v ∧ v ≤ a.hi) := fun c => hv (by simp [c])
+    have hvr : ¬ Free rest v := fun c => hv (by simp [c])
+    unfold dealloc
+    by_cases hlt : a.hi < v
+    · rw [if_pos hlt]
+      cases rest with
+      | nil =>
+        simp only
+        by_cases he : a.hi + 1 = v
+        · rw [if_pos he]
+          refine ⟨_, rfl, ?_, ?_⟩
+          · intro w; simp; omega
+          · exact ⟨h1, by simp; omega, trivial⟩
+        · rw [if_neg he]
+          refine ⟨_, rfl, ?_, ?_⟩
+          · intro w; simp; omega
+          · exact ⟨h1, h2, by simp; omega, Nat.le_refl _, trivial⟩
+      | cons b rest' =>
+        simp only
+        obtain ⟨g1, g2, g3⟩ := h3
+        have hvb : ¬ (b.lo ≤ v ∧ v ≤ b.hi) := fun c => hvr (by simp [c])
+        by_cases hb : b.hi < v
+        · rw [if_pos hb]
+          have hmax' : ∀ iv ∈ b :: rest', iv.hi ≤ tmax := fun iv hiv => hmax iv (List.mem_cons_of_mem _ hiv)
+          obtain ⟨q, hq, hf, hok⟩ := ih (lb := a.hi + 2) ⟨g1, g2, g3⟩ hvr (by omega) hmax'
+          refine ⟨a :: q, by rw [hq]; rfl, ?_, ?_⟩
+          · intro w; simp only [free_cons, hf]; grind
+          · exact ⟨h1, h2, hok⟩
+        · rw [if_neg hb]
+          have hbv : v < b.lo := by omega
+          have hbm : b.hi ≤ tmax := hmax b (by simp)
+          have hvt : v ≠ tmax := by omega
+          have hr : ∀ w, w ≤ b.hi + 1 → ¬ Free rest' w := fun w hw => not_free_lt g3 (by omega)
+          unfold deallocLR
+          simp only
+          by_cases he : a.hi + 1 = v
+          · rw [if_pos he, if_neg hvt]
+            by_cases hm : v + 1 = b.lo
+            · rw [if_pos hm]
+              refine ⟨_, rfl, ?_, ?_⟩
+              · intro w; have := hr w; simp only [free_cons]; grind
+              · exact ⟨h1, by simp; omega, g3⟩
+            · rw [if_neg hm]
+              refine ⟨_, rfl, ?_, ?_⟩
+              · intro w; simp only [free_cons]; grind
+              · exact ⟨h1, by simp; omega, by simp; omega, g2, g3⟩
+          · rw [if_neg he, if_neg hvt]
+            by_cases hm : v + 1 = b.lo
+            · rw [if_pos hm]
+              refine ⟨_, rfl, ?_, ?_⟩
+              · intro w; simp only [free_cons]; grind
+              · exact ⟨h1, h2, by simp; omega, by simp; omega, g3⟩
+            · rw [if_neg hm, if_neg (by omega)]
+              refine ⟨_, rfl, ?_, ?_⟩
+              · intro w; simp only [free_cons]; grind
+              · exact ⟨h1, h2, by simp; omega, Nat.le_refl _, by simp; omega, g2, g3⟩
+    · rw [if_neg hlt]
+      have hav : v < a.lo := by omega
+      have ham : a.hi ≤ tmax := hmax a (by simp)
+      have hvt : v ≠ tmax := by omega
+      unfold deallocLR
+      simp only
+      rw [if_neg hvt]
+      by_cases hm : v + 1 = a.lo
+      · rw [if_pos hm]
+        refine ⟨_, rfl, ?_, ?_⟩
+        · intro w; simp only [free_cons]; grind
+        · exact ⟨hlb, by simp; omega, h3⟩
+      · rw [if_neg hm, if_neg (by omega)]
+        refine ⟨_, rfl, ?_, ?_⟩
+        · intro w; simp only [free_cons]; grind
+        · exact ⟨hlb, Nat.le_refl _, by simp; omega, h2, h3⟩
+
+#print axioms dealloc_used
+
+/-- the finding: releasing the *free* value `tmax` panics (debug build) -/
+theorem dealloc_free_tmax_panics : dealloc 65535 65535 [⟨1, 65535⟩] ≠ .ok [⟨1, 65535⟩] := by decide
+
+end Alloc
